@@ -771,6 +771,9 @@ class Vector():
 					underlying = self._underlying
 				if target.nullable and not self._dtype.nullable:
 					self._dtype = self._dtype.with_nullable(True)
+			elif self._dtype is not None and not self._dtype.nullable and any(v is None for v in new_values):
+				# object columns take anything, but None still makes them nullable
+				self._dtype = self._dtype.with_nullable(True)
 		# =====================================================================
 		# MUTATE — copy-on-write + fingerprint updates
 		# =====================================================================
